@@ -62,10 +62,12 @@ class Report:
     def rule(self, rid, text):
         self.rules.setdefault(rid, text)
 
-    def add(self, rule, fn, node, status, msg, construct=None, path=None):
+    def add(self, rule, fn, node, status, msg, construct=None, path=None, func=None):
+        """func: overrides the function part of the obligation's key (e.g. the owning class, so that moving the construct into
+        another private method does not change the identity of a recorded finding); the location still comes from fn/node."""
         if rule not in self.rules:
             raise AnalysisError(f'rule {rule} used before being declared')
-        func = fn if isinstance(fn, str) else (fn.short if fn is not None else '-')
+        func = func or (fn if isinstance(fn, str) else (fn.short if fn is not None else '-'))
         where = '-'
         if fn is not None and not isinstance(fn, str):
             where = fn.where(node if (node is not None and not isinstance(node, str)) else None)
@@ -93,6 +95,21 @@ class Report:
         if cond:
             return self.ok(rule, fn, node, okmsg, **kw)
         return self.bad(rule, fn, node, badmsg or ('NOT: ' + okmsg), **kw)
+
+    def guarded(self, group, f, *args, **kw):
+        """Run one group of rules; a vanished *private* helper turns the rest of the group into one UNDECIDED obligation."""
+        from .model import PrivateAnchorMissing
+        try:
+            return f(*args, **kw)
+        except PrivateAnchorMissing as exc:
+            self.private_missing(group, exc)
+            return None
+
+    def private_missing(self, group, exc):
+        self.rule('A0.private', 'private helpers a rule group looks at exist under the name the rule knows (informational: private names are not '
+                  'anchors; when one is renamed, inlined or split the group reports UNDECIDED instead of failing)')
+        self.add('A0.private', exc.what.rsplit('.', 1)[0].replace('copulas.', ''), None, UNDECIDED,
+                 f'{exc}: rule group {group} was not (fully) evaluated', construct=f'{group}: {exc.what.rsplit(".", 1)[-1]}')
 
     def floor(self, rule, what, count, minimum):
         self.floors.append((rule, what, count, minimum))
